@@ -19,6 +19,16 @@ def main() -> int:
     except ModuleNotFoundError:
         print(f"no check for {args.prop}", file=sys.stderr)
         return 2
+    cov = None
+    if os.environ.get("VERIF_COVERAGE"):
+        # opt-in measurement of what the correspondence runs execute of the library (tools/tie_coverage.sh);
+        # never part of a registered check
+        import coverage
+        repo = os.environ.get("VERIF_REPO", "/repo")
+        os.makedirs(os.environ["VERIF_COVERAGE"], exist_ok=True)
+        cov = coverage.Coverage(data_file=os.path.join(os.environ["VERIF_COVERAGE"], f".coverage.{args.prop}"),
+                                branch=True, include=[os.path.join(repo, "circuitpython_nrf24l01", "*")])
+        cov.start()
     try:
         if args.replay:
             return mod.replay(args.replay)
@@ -29,6 +39,10 @@ def main() -> int:
     except Exception:
         traceback.print_exc()
         return 2
+    finally:
+        if cov is not None:
+            cov.stop()
+            cov.save()
 
 
 if __name__ == "__main__":
